@@ -342,8 +342,9 @@ class Lexer:
         Return a tokenized string version of an input series of tokens.
         """
         parts = ['"']
-        for p in tokens:
-            if p.prev_white:
+        for i, p in enumerate(tokens):
+            # White space before the first token of the argument is deleted.
+            if p.prev_white and i > 0:
                 parts.append(" ")
             parts.append(p.sanitized_str())
         parts.append('"')
